@@ -19,6 +19,21 @@ CLAIMED = {
    technique="Coq proof of lattice/set laws on the register model + differential correspondence (registers) + law oracle on the implementation"),
 }
 
+DBNOTE = "Trusted: Coq kernel; hand-written models Db.v (the store over LMDB-as-finite-ordered-maps with a 511-byte key limit, transactions as private table copies, object-level append-only log) and ADb.v (abstract store); extraction; harness/runner/python judge. Transfer to the code only as strong as the sampled agreement of this run (impl vs Db.v exact per aspect; impl vs ADb.v oracle). LMDB internals, mmap/kernel behaviour assumed."
+DBTECH = "Coq proofs by induction over arbitrary operation lists (invariants / monotone history) + differential correspondence impl vs concrete model + abstract-store oracle on every generated history"
+for pid, text in {
+ "C04": "Coq theorems (4) on the append-only log model: an offset that reads back an event reads back the same event after ANY later operations (stores incl. growth, removals, deletions, vanish, reopen), successful stores return fresh 8-aligned strictly increasing offsets (never reused), reopen is the identity. By-id read-back and the byte level (marker, padding, growth) are covered by the correspondence run in BOTH build profiles (debug: 2 KiB chunks, growth every few stores), which re-reads every offset ever returned after every op.",
+ "C05": "PARTIAL proof: Coq theorem on the specification of a query (results retrievable+matching+screened, newest first, count=min(limit,qualifying), completeness of the unlimited answer). The refinement of the seven query plans to that specification is not yet a theorem; it is decided per run by the differential check: impl vs the concrete model of the plans (exact) and impl vs the specification modulo ties at the cut (oracle), both profiles, incl. inverted/future windows, limit 0..n, screening tables.",
+ "C09": "Coq theorems (6) on the abstract store for ALL histories: at most one retrievable event per replaceable address and unique ids in every reachable state (induction over operation lists), a successful store removes exactly the holders of its own address and nothing else, an older event is refused and changes nothing, other addresses (any byte/length of d, author, kind) are untouched, kind classification. Tied to the code by the differential run (store results, every id/address observation) and a 65536-kind sweep.",
+ "C10": "Coq theorems (4) on the abstract store: for every reachable state and every kind-5 request with any tag list, an event of a different author stays retrievable, gets no id marker, and no address of another author gets or changes a marker; a refused request rolls back completely. Tied to the code by the differential run with deletion-heavy histories.",
+ "C11": "Coq theorems (6) on the abstract store for every continuation: deletion times are monotone, an event covered by an address deletion or marked by id is unretrievable and refused (deleted/duplicate) forever, no retrievable event is ever covered, accepted requests mark the ids they name, newer events are never refused as deleted. Tied to the code by the differential run (1-4 requests per id/address in every arrival order, reopen/rebuild continuations).",
+ "C12": "Coq theorems (3): whenever the model's store_event fails (any error, panic) the committed tables - all that lookups, queries, markers and counters read - are unchanged, only the log may have grown; old offsets keep reading the same events; the abstract store is literally unchanged. Tied to the code by histories with >= 50% failing stores and a full observation dump compared before/after each failure on the implementation itself.",
+ "C16": "PARTIAL proof: reopen is the identity on the model; rebuild leaves the old log+tables as backup, copies extra tables, and the new event map holds exactly the events of the id index, 8-aligned after the header (compactness formula). That rebuild preserves the abstract state is decided per run by the differential check: full observation dump (every id, address marker with time, counters, extra tables, query battery) before vs after reopen/rebuild at random positions, on the implementation and vs the model.",
+ "C17": "PARTIAL proof: Coq theorems (7) at table level: range scans return exactly the closed key interval in ascending order; Db.index/deindex are put_all/del_all of the event's key lists; deindex removes exactly what index added (membership and count) and indexing fresh keys adds one entry per distinct key. The global invariant over all histories is decided per run: after every op the entry counters must equal the retrievable-event count (id/ci/ac/akc) and the distinct (letter, padded value) count (tc/atc/ktc), and own-field filter shapes are queried.",
+ "C18": "Coq theorems (4) on the abstract store: remove/vanish remove exactly their targets (iff characterisation) and leave markers and extra tables untouched, a removed event is not refused as duplicate nor newly as deleted, ephemeral events are accepted but never retrievable. Tied to the code by removal/vanish-heavy histories (gift wraps naming the key first / later / as non-first value / upper-case).",
+}.items():
+    CLAIMED[pid] = dict(engine="db-diff", design="DESIGN.md 5 " + pid, text=text, note=DBNOTE, technique=DBTECH)
+
 checks = []
 for pid, c in sorted(CLAIMED.items()):
     checks.append({
